@@ -27,7 +27,8 @@
     select_is_path_select real_once_on_trees
     xpath_spec_eq_marks_spec marks_are_xpath_matches_every_strategy real_template_rewrites_xpath_matches
     xpath_criterion_is_nonpositional buffer_hint_irrelevant_late
-    once_replaces_first_match real_once_replaces_first_match
+    once_replaces_first_match real_once_replaces_first_match union_attribute_operand_masks_match
+    filter_is_chain_of_rewrites_with_once real_filter_is_chain_of_rewrites_with_once
 -/
 import Genshi.Lemmas.MatchSync
 import Genshi.Lemmas.MatchPipe
@@ -51,6 +52,7 @@ import Genshi.Lemmas.MatchRealOnce
 import Genshi.Lemmas.MatchXpInst
 import Genshi.Lemmas.MatchLateHints
 import Genshi.Lemmas.MatchRealOnceTree
+import Genshi.Lemmas.MatchChainOnce
 import Genshi.Props.C05
 namespace Genshi.Props.C12
 open Genshi Genshi.Match
@@ -938,5 +940,65 @@ example : (onceList ({ dACk with hints := ⟨false, true, false⟩ : Decl }.real
       ({ dACk with hints := ⟨false, true, false⟩ : Decl }.real [] []).st [] (forestR ++ forestR)).1
     = ((run 90 0 (some 1) (evItems (flattenList (forestR ++ forestR)))
         [{ dACk with hints := ⟨false, true, false⟩ : Decl }.real [] []]).map (·.2)).getD [] := by decide +kernel
+
+/-! ### the chain of rewrites with `once` templates among them -/
+
+/-- **filter_is_chain_of_rewrites, `once` templates included.**  For every forest and every template list
+    whose templates of the window `[s, s+k)` are live, lawful, do not read `updateonly` and have
+    well-nested bodies — with or without `once` —: the filter's output is obtained by rewriting the whole
+    document with the first template, re-reading the result as a forest, rewriting it with the second, and
+    so on (`ChainO`), where the rewrite of a template is `stageOut`: `specList` (every match replaced)
+    without the hint, `onceList` (the first match in document order replaced) with it. -/
+theorem filter_is_chain_of_rewrites_with_once {σ : Type} (k s f : Nat) (ns : List Node) (M : List (MT σ))
+    (r : List (MT σ) × List Event) (hns : okList ns = true)
+    (hst : ∀ j t, s ≤ j → j < s + k → M[j]? = some t → StageOKO t) (hlen : s + k ≤ M.length)
+    (hok : ∀ t ∈ M, OKt t) (h : run f s (some (s + k)) (evItems (flattenList ns)) M = some r) :
+    ChainO M s k ns r.2 :=
+  run_is_chainO k s f ns M r hns hst hlen hok h
+
+open Genshi.Path in
+/-- **The same for real templates**: any list of `<py:match>` declarations without position tests (any
+    union, any strategy, any hints): the filter over the window `[s, s+k)` is the chain of the tree
+    rewrites of the declarations in declaration order, `once` declarations rewriting their first match. -/
+theorem real_filter_is_chain_of_rewrites_with_once (ns : NsMap) (vs : Vars) (ds : List Decl)
+    (hok : ∀ d ∈ ds, d.ok ns vs) (hb : ∀ d ∈ ds, BodyOK d.body) (k s f : Nat) (forest : List Node)
+    (r : List (MT RSt) × List Event) (hns : okList forest = true) (hlen : s + k ≤ ds.length)
+    (h : run f s (some (s + k)) (evItems (flattenList forest)) (ds.map (Decl.real ns vs)) = some r) :
+    ChainO (ds.map (Decl.real ns vs)) s k forest r.2 :=
+  real_run_is_chainO ns vs ds hok hb k s f forest r hns hlen h
+
+section ChainOnceExamples
+/-- `[b → <x/> once, a → <w>*</w>]` on `forestB`: the first `<b>` becomes `<x/>`, then `<a>` is wrapped -/
+example : (run 40 0 (some 2) (evItems (flattenList forestB)) [tBonce, tWrap]).map (·.2)
+    = some [S 'w', S 'c', E 'c', S 'x', E 'x', E 'w', S 'b', E 'b'] := by decide
+example : stageOut tBonce forestB = [S 'a', S 'c', E 'c', S 'x', E 'x', E 'a', S 'b', E 'b'] := by decide
+example : StageOKO tBonce :=
+  ⟨rfl, lawful_single _ _ _, fun _ _ _ _ => rfl, by intro st; simp [tBonce, mkMT, MT.ofHints, trackB, track, S, E]⟩
+end ChainOnceExamples
+
+/-! ### an attribute step in a union: outside `PatternXp`, and why -/
+
+section UnionAttr
+open Genshi.Path
+/-- `b/@n` and `b` as the parser delivers them -/
+def pBn : LocPath := [⟨.child, .localName false ['b'], []⟩, ⟨.attribute, .localName true ['n'], []⟩]
+def pBonly : LocPath := [⟨.child, .localName false ['b'], []⟩]
+example : parse "b/@n|b".toList = .ok [pBn, pBonly] := by decide +kernel
+
+/-- **Witness of the known finding C12-union-attribute-operand.**  The union dispatcher `_multi` reports
+    one operand per event — the first result that is not `None` —, and `_match` fires on `True` only.  On
+    `<b n="1"/>` the operand `b/@n` answers an `Attrs` value, which hides the `True` of the operand `b`:
+    with `path="b/@n|b"` the element is NOT replaced although the path matches it (second conjunct: with
+    the operands in the other order it is).  So the tree-rewrite-by-XPath theorems exclude the attribute
+    axis (`PatternXp`, `StepsOk.na`); the same root as C05-union-attribute-and-owner. -/
+theorem union_attribute_operand_masks_match :
+    render 30 [.ev (S 'r'), .reg (mkReal [pBn, pBonly] [] [] [.ev (T 'k')] noHints),
+               .ev (.start ⟨[], ['b']⟩ [(⟨[], ['n']⟩, ['1'])]), .ev (E 'b'), .ev (E 'r')]
+      = some [S 'r', .start ⟨[], ['b']⟩ [(⟨[], ['n']⟩, ['1'])], E 'b', E 'r'] ∧
+    render 30 [.ev (S 'r'), .reg (mkReal [pBonly, pBn] [] [] [.ev (T 'k')] noHints),
+               .ev (.start ⟨[], ['b']⟩ [(⟨[], ['n']⟩, ['1'])]), .ev (E 'b'), .ev (E 'r')]
+      = some [S 'r', T 'k', E 'r'] := by
+  constructor <;> decide +kernel
+end UnionAttr
 
 end Genshi.Props.C12
